@@ -675,6 +675,12 @@ func credOf(id string) string {
 	return "?"
 }
 
+var vPad = strings.Repeat("a", 1<<20)
+
+type vErrReader struct{}
+
+func (vErrReader) Read([]byte) (int, error) { return 0, errors.New("scripted body error") }
+
 type vErrTransport struct{}
 
 func (vErrTransport) Error() string { return "scripted transport error" }
@@ -764,6 +770,10 @@ func (r *vRun) regJSON(x vResp) string {
 		}
 	}
 	m["redirect_uris"] = red
+	if r.w.sty%2 == 0 {
+		m["client_id_issued_at"] = 1700000000
+		m["client_secret_expires_at"] = 1800000000
+	}
 	switch x.regMethod {
 	case "n":
 		m["token_endpoint_auth_method"] = "none"
@@ -794,6 +804,9 @@ func (r *vRun) getResp(x vResp, body func() string) (*http.Response, error) {
 		return vHTTP(200, []string{"text/html", "", "application/jsonx; charset=utf-8"}[r.w.sty%3], body()), nil
 	case "J":
 		return vHTTP(200, "application/json", `{"issuer": [`), nil
+	case "L":
+		b := strings.TrimSpace(body())
+		return vHTTP(200, "application/json", b[:len(b)-1]+`,"zzpad":"`+vPad+`"}`), nil
 	case "D":
 		return vHTTP(200, []string{"application/json", "application/json; charset=utf-8"}[r.w.sty%2], body()), nil
 	}
@@ -839,6 +852,13 @@ func (r *vRun) RoundTrip(req *http.Request) (*http.Response, error) {
 			return vHTTP(400, "application/json", `{"error":"invalid_redirect_uri","error_description":"no"}`), nil
 		case "F3":
 			return vHTTP(302, "", ""), nil
+		case "F4J": // 400 whose error document cannot be decoded
+			return vHTTP(400, "application/json", `{"error": `), nil
+		case "FB": // the body cannot be read
+			resp := vHTTP(r.pick(201, 200, 400), "application/json", "")
+			resp.Body = io.NopCloser(vErrReader{})
+			resp.ContentLength = -1
+			return resp, nil
 		case "FJ":
 			return vHTTP(r.pick(201, 200), "application/json", `{"client_id": `), nil
 		case "R":
@@ -1324,6 +1344,9 @@ func (g *vGen) set(name string, m map[string]vResp, k vURL, r vResp) {
 }
 
 func (g *vGen) failCode() string {
+	if g.rng.Intn(40) == 0 {
+		return "L" // a document larger than getJSON's 1 MiB limit
+	}
 	return []string{"S4", "S4", "S4", "S5", "S3", "S2", "C", "J", "T"}[g.rng.Intn(9)]
 }
 
@@ -1639,7 +1662,7 @@ func (g *vGen) world() *vWorld {
 					r.regURLs = []vURL{g.unsafeURL()}
 				}
 			default:
-				r = vResp{code: []string{"FT", "F5", "F4", "FJ", "F3"}[g.rng.Intn(5)]}
+				r = vResp{code: []string{"FT", "F5", "F4", "FJ", "F3", "F4J", "FB"}[g.rng.Intn(7)]}
 			}
 			g.set("reg", w.reg, d.reg, r)
 		}
@@ -1790,6 +1813,243 @@ func (g *vGen) renderHeader() {
 	if cur != "" {
 		w.hdr = append(w.hdr, cur)
 	}
+}
+
+// ---------------------------------------------------------------------------------------------
+// handler construction (`new` records): NewAuthorizationCodeHandler, isNonRootHTTPSURL,
+// inferApplicationType, ClientCredentials.Validate against McpModel/OAuth/NewHandler.lean
+
+var vRedirKinds = []string{"x", "l", "r", "c"}
+
+// redirString renders redirect URI `id`; its kind is fixed by the id (kind = id mod 4), so that equal
+// ids are equal strings.
+func redirString(id int) string {
+	switch vRedirKinds[id%4] {
+	case "x":
+		return fmt.Sprintf("://bad%d", id)
+	case "l":
+		return fmt.Sprintf([]string{"http://localhost:%d/cb", "http://127.0.0.1:%d/cb", "https://[::1]:%d/cb"}[(id/4)%3], 7000+id)
+	case "r":
+		return fmt.Sprintf([]string{"https://app%d.example.com/cb", "http://app%d.example.com/cb"}[(id/4)%2], id)
+	}
+	return fmt.Sprintf([]string{"com.example.app%d:/cb", "app%d.example/cb"}[(id/4)%2], id)
+}
+
+// redirKindOf classifies a concrete string the way the property's reading does (net/url + IsLoopback).
+func redirKindOf(s string) string {
+	u, err := url.Parse(s)
+	if err != nil {
+		return "x"
+	}
+	if u.Scheme == "http" || u.Scheme == "https" {
+		if util.IsLoopback(u.Hostname()) {
+			return "l"
+		}
+		return "r"
+	}
+	return "c"
+}
+
+func appTypeString(t string) string {
+	switch {
+	case t == "u":
+		return ""
+	case t == "n":
+		return "native"
+	case t == "w":
+		return "web"
+	}
+	return "service-" + t[1:]
+}
+
+func appTypeTok(s string) string {
+	switch {
+	case s == "":
+		return "u"
+	case s == "native":
+		return "n"
+	case s == "web":
+		return "w"
+	case strings.HasPrefix(s, "service-"):
+		return "o" + s[len("service-"):]
+	}
+	return "?" + hxs(s)
+}
+
+func newRun(op string) (obs string) {
+	defer func() {
+		if p := recover(); p != nil {
+			obs = "panic"
+		}
+	}()
+	kv := map[string]string{}
+	for _, t := range strings.Fields(op)[1:] {
+		k, v, _ := strings.Cut(t, "=")
+		kv[k] = v
+	}
+	if kv["nil"] == "1" {
+		_, err := NewAuthorizationCodeHandler(nil)
+		return classifyNewErr(err)
+	}
+	cfg := &AuthorizationCodeHandlerConfig{}
+	if kv["fetcher"] == "1" {
+		cfg.AuthorizationCodeFetcher = func(context.Context, *AuthorizationArgs) (*AuthorizationResult, error) { return nil, vFetchErr }
+	}
+	if c := kv["cimd"]; c != "-" {
+		if len(c) != 3 {
+			return "bad-op"
+		}
+		u := map[string]string{"111": "https://client.example/cimd.json", "110": "https://client.example", "101": "http://client.example/cimd.json",
+			"100": "ftp://client.example", "011": "://bad/https", "010": "://bad", "001": "://bad/x", "000": "://"}[c]
+		// the string must have the class the token claims
+		pu, err := url.Parse(u)
+		if (err == nil) != (c[0] == '1') || (err == nil && ((pu.Scheme == "https") != (c[1] == '1') || (pu.Path != "") != (c[2] == '1'))) {
+			return "pool-wrong:" + hxs(u)
+		}
+		cfg.ClientIDMetadataDocumentConfig = &ClientIDMetadataDocumentConfig{URL: u}
+	}
+	if p := kv["pre"]; p != "-" {
+		if len(p) != 2 {
+			return "bad-op"
+		}
+		cc := &oauthex.ClientCredentials{ClientID: vPreID}
+		if p[0] == '1' {
+			cc.ClientID = ""
+		}
+		switch p[1] {
+		case '0':
+			cc.ClientSecretAuth = &oauthex.ClientSecretAuth{ClientSecret: vPreSecret}
+		case '1':
+			cc.ClientSecretAuth = &oauthex.ClientSecretAuth{}
+		}
+		cfg.PreregisteredClient = cc
+	}
+	var meta *oauthex.ClientRegistrationMetadata
+	if d := kv["dcr"]; d != "-" {
+		f := strings.Split(d, ":")
+		if len(f) != 3 {
+			return "bad-op"
+		}
+		dc := &DynamicClientRegistrationConfig{}
+		if f[0] != "1" {
+			meta = &oauthex.ClientRegistrationMetadata{ClientName: "verif", ApplicationType: appTypeString(f[1])}
+			if f[2] != "." {
+				for _, r := range strings.Split(f[2], ",") {
+					ids, kind, _ := strings.Cut(r, ".")
+					id, err := strconv.Atoi(ids)
+					if err != nil || redirKindOf(redirString(id)) != kind {
+						return "pool-wrong:" + hxs(r)
+					}
+					meta.RedirectURIs = append(meta.RedirectURIs, redirString(id))
+				}
+			}
+			dc.Metadata = meta
+		}
+		cfg.DynamicClientRegistrationConfig = dc
+	}
+	if rd := kv["rd"]; rd != "-" {
+		id, err := strconv.Atoi(rd)
+		if err != nil {
+			return "bad-op"
+		}
+		cfg.RedirectURL = redirString(id)
+	}
+	h, err := NewAuthorizationCodeHandler(cfg)
+	if err != nil {
+		return classifyNewErr(err)
+	}
+	rdTok := "?" + hxs(h.config.RedirectURL)
+	for id := 0; id < 48; id++ {
+		if redirString(id) == h.config.RedirectURL {
+			rdTok = strconv.Itoa(id)
+			break
+		}
+	}
+	at := "-"
+	if meta != nil {
+		at = appTypeTok(meta.ApplicationType)
+	}
+	return "ok rd=" + rdTok + " at=" + at
+}
+
+func classifyNewErr(err error) string {
+	if err == nil {
+		return "ok-nil-config"
+	}
+	s := err.Error()
+	for _, c := range [][2]string{
+		{"config must be provided", "nil-config"}, {"at least one client registration configuration", "no-registration"},
+		{"AuthorizationCodeFetcher is required", "no-fetcher"}, {"client ID metadata document URL must be", "cimd-url"},
+		{"invalid PreregisteredClient configuration", "pre-invalid"}, {"requires non-nil Metadata", "dcr-no-metadata"},
+		{"Metadata.RedirectURIs is required", "dcr-no-redirects"}, {"is not in the list of allowed redirect URIs", "redirect-not-allowed"},
+		{"conflicts with the application type inferred", "app-type-conflict"}, {"RedirectURL is required", "no-redirect"}} {
+		if strings.Contains(s, c[0]) {
+			return "err=" + c[1]
+		}
+	}
+	return "err=other:" + hxs(s)
+}
+
+// genNew draws a configuration: mostly usable ones with one defect, some with several.
+func genNew(rng *rand.Rand) string {
+	p := func(pct int) bool { return rng.Intn(100) < pct }
+	nilc, cimd, pre, dcr, fetcher, rd := "0", "-", "-", "-", "1", "-"
+	if p(2) {
+		nilc = "1"
+	}
+	if p(40) {
+		cimd = "111"
+		if p(35) {
+			cimd = []string{"110", "101", "100", "011", "010", "001", "000"}[rng.Intn(7)]
+		}
+	}
+	if p(40) {
+		pre = "00"
+		if p(35) {
+			pre = []string{"0n", "01", "10", "1n", "11"}[rng.Intn(5)]
+		}
+	}
+	if p(55) {
+		n := rng.Intn(5)
+		if p(10) {
+			n = 0
+		}
+		// mostly one family of redirect URIs (so that a type can be inferred), sometimes mixed / unparsable
+		fam := []int{1, 2, 3}[rng.Intn(3)]
+		var rs []string
+		var ids []int
+		for i := 0; i < n; i++ {
+			k := fam
+			if p(15) {
+				k = rng.Intn(4)
+			} else if fam != 2 && p(30) {
+				k = []int{1, 3}[rng.Intn(2)]
+			}
+			id := k + 4*rng.Intn(6)
+			ids = append(ids, id)
+			rs = append(rs, fmt.Sprintf("%d.%s", id, vRedirKinds[id%4]))
+		}
+		at := "u"
+		if p(50) {
+			at = []string{"n", "w", "n", "w", "o1"}[rng.Intn(5)]
+		}
+		l := "."
+		if len(rs) > 0 {
+			l = strings.Join(rs, ",")
+		}
+		dcr = bit(p(6)) + ":" + at + ":" + l
+		if len(ids) > 0 && p(45) {
+			rd = strconv.Itoa(ids[rng.Intn(len(ids))])
+		} else if p(25) {
+			rd = strconv.Itoa(rng.Intn(24))
+		}
+	} else if p(85) {
+		rd = strconv.Itoa(rng.Intn(24))
+	}
+	if p(7) {
+		fetcher = "0"
+	}
+	return fmt.Sprintf("new nil=%s cimd=%s pre=%s dcr=%s fetcher=%s rd=%s", nilc, cimd, pre, dcr, fetcher, rd)
 }
 
 // ---------------------------------------------------------------------------------------------
@@ -1962,6 +2222,9 @@ func runOps(out *verifOut, cs string, ops []string, tag string) {
 				}
 			}
 			out.line(cs, op, obs, tags...)
+		case strings.HasPrefix(op, "new "):
+			obs := newRun(op)
+			out.line(cs, op, obs, tag, "new", "new:"+strings.Fields(obs+" .")[0])
 		case strings.HasPrefix(op, "www ") || op == "www":
 			out.line(cs, op, wwwRun(strings.Fields(op)[1:]), tag, "www")
 		case strings.HasPrefix(op, "wwwfuzz "):
@@ -2027,8 +2290,13 @@ func TestVerifOAuthFlow(t *testing.T) {
 			out.line("pool", "reset", "bad-pool-parses:"+hxs(s), "reset")
 		}
 	}
-	if runCorpusAndReplay(out, "auth ", "again ", "begin ", "end ") {
+	if runCorpusAndReplay(out, "auth ", "again ", "begin ", "end ", "new ") {
 		return
+	}
+	// handler construction: which configurations become a handler, with which redirect URL / application type
+	nrng := verifRng(151)
+	for i, nn := 0, verifN(1500, 20000); i < nn; i++ {
+		runOps(out, fmt.Sprintf("n%d", i), []string{genNew(nrng)}, "gen")
 	}
 	n := verifN(10000, 60000)
 	rng := verifRng(15)
